@@ -279,8 +279,13 @@ def r6(c):
                 nm = pl['p'][-1].split(':', 2)[2]
                 if nm in writers and q.sem_is_name(bb, q.sem(bb, {'l': pl['l'], 'p': pl['p'][:-1]}), 'self'):
                     writers[nm].add(P.logical_name(bb))
-    c.ob('end-writers', writers['end'] == {RB + '::read_some'}, 'only read_some assigns `end`', str(sorted(writers['end'])))
-    c.ob('begin-writers', writers['begin'] <= {RB + '::read_some', RB + '::read', RB + '::read_u8'} and len(writers['begin']) == 3, 'only read / read_u8 advance `begin` (and read_some rebases it)', str(sorted(writers['begin'])))
+    c.ob('end-writers', writers['end'] <= {RB + '::read_some', RB + '::clear'} and RB + '::read_some' in writers['end'], 'only read_some (and clear) assign `end`', str(sorted(writers['end'])))
+    c.ob('begin-writers', writers['begin'] <= {RB + '::read_some', RB + '::read', RB + '::read_u8', RB + '::clear'} and {RB + '::read', RB + '::read_u8'} <= writers['begin'],
+         'only read / read_u8 advance `begin` (read_some rebases it, clear zeroes it)', str(sorted(writers['begin'])))
+    if P.has(RB + '::clear'):
+        cb = P.fn(RB + '::clear')
+        st = [(s_['pl']['p'][-1].split(':', 2)[2], q.const_val(cb, s_['rv']['a'][0]) if s_['rv']['r'] == 'use' else None) for _, s_ in cb.assigns() if s_['pl']['p'] and s_['pl']['p'][-1].startswith('field:')]
+        c.ob('clear', sorted(st) == [('begin', 0), ('end', 0)], 'clear() sets begin = end = 0 and nothing else', str(st), loc_of(cb))
     b = P.fn(RB + '::read_some')
     c.saw(b, len(b.calls()))
     facts = q.cmp_facts(b)
@@ -340,3 +345,33 @@ def r6(c):
         get = [cs for cs in fb.calls() if cs.callee.endswith('::get')]
         ok = len(get) == 1 and bool(xs) and all(q.dominated_by_any(fb, q.outcomes(fb, get[0]).get('Some', []), x['node']) for x in xs)
         c.ob('accessor/%s' % fnm, ok, 'ReadBuffer::%s returns data only through a checked slice::get' % fnm, '', loc_of(fb))
+
+
+FR_RESET = 'rodbus::common::frame::FramedReader::reset'
+
+
+@rule('C05', 'R05.7', 'framing state is per connection: every session starts with an empty buffer and a reset parser, and never resets mid-session')
+def r7(c):
+    P = c.P
+    starts = {'rodbus::client::task::ClientLoop::run': 'rodbus::client::task::ClientLoop::poll', 'rodbus::server::task::SessionTask::run': 'rodbus::server::task::SessionTask::run_one'}
+    sites = P.callers(FR_RESET)
+    where = sorted({P.logical_name(cs.body) for cs in sites})
+    c.ob('reset/callers', set(where) == set(starts), 'FramedReader::reset is called exactly at the two session entry points', str(where), examined=len(sites))
+    for f, step in starts.items():
+        b = P.fn(f)
+        c.saw(b, len(b.calls()))
+        rs = b.calls(FR_RESET)
+        st = b.calls(step)
+        ok = len(rs) == 1 and len(st) == 1 and not b.in_cycle(rs[0].node) and b.dominates(rs[0].ret, st[0].node)
+        if ok:
+            a = q.sem(b, rs[0].args[0])
+            ok = q.sem_is_name(b, a, 'self') and any('reader' in p for p in a.proj)
+        c.ob('reset/%s' % f.split('::')[-2], ok, '%s resets self.reader once, before its receive loop' % f, '%d reset calls' % len(rs), loc_of(b), kind='session-start')
+    r = P.fn(FR_RESET)
+    pr = [cs for cs in r.calls('rodbus::common::frame::FrameParser::reset')]
+    cl = [cs for cs in r.calls(RB + '::clear')]
+    ok = len(pr) == 1 and len(cl) == 1 and q.sem_is_name(r, q.sem(r, pr[0].args[0]), 'self') and q.sem_is_name(r, q.sem(r, cl[0].args[0]), 'self')
+    c.ob('reset/body', ok, 'FramedReader::reset resets the parser state and clears the buffer', '', loc_of(r))
+    # TCP server sessions get a fresh reader each (new FramedReader::tcp per run_session)
+    rs_ = P.fn('rodbus::tcp::server::run_session')
+    c.ob('tcp-server/fresh-reader', len(rs_.calls('rodbus::common::frame::FramedReader::tcp')) == 1 and len(rs_.calls('rodbus::common::frame::FrameWriter::tcp')) == 1, 'each TCP/TLS server session constructs its own reader and writer', '', loc_of(rs_))
